@@ -27,9 +27,10 @@ Proof. intros tb r W HW. pose proof (gmax_nonneg tb r). lia. Qed.
 
 (* a well-formed screen may have cells at negative column indices *)
 Lemma wf_example_negative :
-  wf_screen 3 2 (mks 1 true 1 0 [(0, neg_row)] []).
+  wf_screen 3 wof_ex 2 (mks 1 true 1 0 [(0, neg_row)] []).
 Proof.
-  unfold wf_screen, nscreen, nrow, ncell, neg_row; cbn [srows sh scx scy].
-  split; [repeat constructor; discriminate|]. split; [lia|]. split; [|lia].
-  intros y Hy. cbn [sget]. destruct (0 =? y) eqn:E; [apply Z.eqb_eq in E; lia|reflexivity].
+  unfold wf_screen, neg_row; cbn [sh scx scy].
+  split; [|split; [lia|split; [|lia]]].
+  - unfold wscreen, wrow, wrowf. wscreen_rows tt; wrow_cases 3.
+  - intros y Hy. cbn [sget srows]. destruct (0 =? y) eqn:E; [apply Z.eqb_eq in E; lia|reflexivity].
 Qed.
